@@ -362,6 +362,8 @@ where
             .par_iter_mut()
             .enumerate()
             .for_each(|(idx, seq)| {
+                #[cfg(feature = "verif-hooks")]
+                crate::verif_hooks::point("pseudoalignment", idx as u64);
                 let sample_vars = self.mapped_variants.slice(s![.., idx]);
                 for ((mapped_chrom, mapped_pos), base) in
                     self.mapped_pos.iter().zip(sample_vars.iter())
